@@ -160,7 +160,8 @@ def case_b(case):
     I = new_interp(P)
     res = {"paths": 0, "violations": [], "case": list(case)}
     cfg = {"plain": {}, "prefix": {"prefix": "OP"}}[cfgname]
-    kinds = {"unit3": ["unit", "unit", "unit"], "mixed": ["unit", "newtype", "struct"], "newtypes": ["newtype", "newtype"], "structs": ["struct", "unit"]}[shape]
+    kinds = {"unit3": ["unit", "unit", "unit"], "mixed": ["unit", "newtype", "struct"], "newtypes": ["newtype", "newtype"], "structs": ["struct", "unit"],
+             "optional": ["unit", "optnewtype", "newtype"]}[shape]
     names = ["Alpha", "Beta", "Gamma"][:len(kinds)]
     is_unit = shape == "unit3"
 
@@ -191,6 +192,8 @@ def case_b(case):
                 vs.append(ir.v_unit(nm, renamed=r))
             elif kd == "newtype":
                 vs.append(ir.v_tuple(nm, ir.special("String"), renamed=r))
+            elif kd == "optnewtype":
+                vs.append(ir.v_tuple(nm, ir.option(ir.special("String")), renamed=r))
             else:
                 vs.append(ir.v_anon(nm, [ir.field("x", ir.special("U32"))], renamed=r))
         if is_unit:
@@ -389,12 +392,13 @@ def expected_key_counts(lang, kinds):
 
 def render_b(case, v):
     lang, shape, cfgname = case[:3]
-    kinds = {"unit3": ["unit", "unit", "unit"], "mixed": ["unit", "newtype", "struct"], "newtypes": ["newtype", "newtype"], "structs": ["struct", "unit"]}[shape]
+    kinds = {"unit3": ["unit", "unit", "unit"], "mixed": ["unit", "newtype", "struct"], "newtypes": ["newtype", "newtype"], "structs": ["struct", "unit"],
+             "optional": ["unit", "optnewtype", "newtype"]}[shape]
     names = ["Alpha", "Beta", "Gamma"][:len(kinds)]
     keys = v.get("keys") or ["k%d" % i for i in range(len(kinds))]
     vs = []
     for nm, kd, k in zip(names, kinds, keys):
-        body = {"unit": nm, "newtype": nm + "(String)", "struct": nm + " { x: u32 }"}[kd]
+        body = {"unit": nm, "newtype": nm + "(String)", "optnewtype": nm + "(Option<String>)", "struct": nm + " { x: u32 }"}[kd]
         vs.append('#[serde(rename = "%s")] %s' % (k, body))
     head = "#[typeshare]\n"
     if shape != "unit3":
@@ -417,11 +421,11 @@ def run(rep, tier, only=None):
         for kd in ("unit", "newtype", "struct"):
             p_cases.append(("alg", rule, "ul", True, kd))
         p_cases.append(("unit", rule, "ul", True, "unit"))
-    b_cases = [(lang, shape, "plain") for lang in LANGS if lang != "python" for shape in ("unit3", "mixed", "newtypes", "structs")]
-    b_cases += [("python", shape, "plain", vi) for shape, nv in (("unit3", 3), ("mixed", 3), ("newtypes", 2), ("structs", 2)) for vi in range(nv)]
+    b_cases = [(lang, shape, "plain") for lang in LANGS if lang != "python" for shape in ("unit3", "mixed", "newtypes", "structs", "optional")]
+    b_cases += [("python", shape, "plain", vi) for shape, nv in (("unit3", 3), ("mixed", 3), ("newtypes", 2), ("structs", 2), ("optional", 3)) for vi in range(nv)]
     b_cases += [(lang, "mixed", "prefix") for lang in ("swift", "kotlin")]
     rep.bounds = {"parser": "variant identifier: UpperCamelCase class words up to %d chars (letters/digits symbolic in class); rename key 2 symbolic chars; tag 2 / content 3 symbolic chars; 10 rename_all settings; unit / newtype / struct variants" % (3 if tier == "quick" else 5),
-                  "back ends": "6 languages x {3 unit variants, unit+newtype+struct, 2 newtypes, struct+unit}; wire names, tag and content keys symbolic (2 chars each)"}
+                  "back ends": "6 languages x {3 unit variants, unit+newtype+struct, 2 newtypes, struct+unit, unit+newtype(Option)+newtype}; wire names, tag and content keys symbolic (2 chars each)"}
     rep.outside = ["internally / externally tagged enums", "keys outside [A-Za-z0-9_-]", "more than 3 variants", "non-ASCII variant identifiers (C16)"]
     rep.assumptions = ["oracle: serde_derive apply_to_variant restated over symbolic chars (checks/c16.py)", "per-language context patterns name the places that carry wire names / tag / content keys"]
     reported = set()
